@@ -135,3 +135,328 @@ fn cover_selectors() {
     kani::cover!(kc::shape(&c).0 == 1);
     kani::cover!(kc::shape(&c).0 == 0);
 }
+
+// ---- C22, level by level without recursion.  `no_placeholder` is four
+// mutually recursive functions (SelectorSet -> Selector -> CompoundSelector
+// -> Pseudo -> SelectorSet); on the real types CBMC does not finish (the
+// harnesses above are mostly attempts).  Here each function's complete body
+// is extracted UNCHANGED into a module in which the type one level DOWN is a
+// stand-in whose `no_placeholder` gives a result chosen by the harness — the
+// callee is replaced by what its contract allows (Some / Any / None), the
+// caller's own text is what is checked.  `Opt` is the real one. ----
+pub(crate) mod levels {
+    pub(crate) use crate::css::selectors::opt::Opt;
+
+    /// what the level below reports: 0 = contains a placeholder (None),
+    /// 1 = matches anything (Any), else kept — as a transformed copy
+    /// (+100), so that "the transformed part is used" can be told apart
+    /// from "the original was kept".
+    fn below<T>(code: u8, mk: impl Fn(u8) -> T) -> Opt<T> {
+        match code {
+            0 => Opt::None,
+            1 => Opt::Any,
+            c => Opt::Some(mk(c.wrapping_add(100))),
+        }
+    }
+
+    pub mod set_level {
+        use super::{Opt, below};
+        #[derive(Clone, PartialEq, Debug)]
+        pub struct Selector(pub u8);
+        impl Selector {
+            pub fn no_placeholder(&self) -> Opt<Selector> {
+                below(self.0, Selector)
+            }
+        }
+        #[derive(Clone, PartialEq, Debug)]
+        pub struct SelectorSet {
+            pub s: Vec<Selector>,
+        }
+        impl SelectorSet {
+//@range file=rsass/src/css/selectors/selectorset.rs impl="impl SelectorSet" fn=no_placeholder
+//@  header: pub fn no_placeholder(&self) -> Opt<Self>
+//@end
+        }
+    }
+
+    pub mod selector_level {
+        use super::{Opt, below};
+        #[derive(Clone, Copy, PartialEq, Debug)]
+        pub struct RelKind(pub u8);
+        /// the selector this one is relative to (one level down)
+        #[derive(Clone, PartialEq, Debug)]
+        pub struct Rel(pub u8);
+        impl Rel {
+            pub fn no_placeholder(&self) -> Opt<Rel> {
+                below(self.0, Rel)
+            }
+        }
+        #[derive(Clone, PartialEq, Debug)]
+        pub struct CompoundSelector {
+            pub code: u8,
+            pub empty: bool,
+        }
+        impl Default for CompoundSelector {
+            fn default() -> Self {
+                CompoundSelector { code: 255, empty: true }
+            }
+        }
+        impl CompoundSelector {
+            pub fn no_placeholder(&self) -> Opt<CompoundSelector> {
+                let empty = self.empty;
+                below(self.code, |code| CompoundSelector { code, empty })
+            }
+            pub fn is_empty(&self) -> bool {
+                self.empty
+            }
+        }
+        #[derive(Clone, PartialEq, Debug)]
+        pub struct Selector {
+            pub rel_of: Option<Box<(RelKind, Rel)>>,
+            pub compound: CompoundSelector,
+        }
+        impl Selector {
+//@range file=rsass/src/css/selectors/selector.rs impl="impl Selector" fn=no_placeholder
+//@  header: pub fn no_placeholder(&self) -> Opt<Self>
+//@end
+//@range file=rsass/src/css/selectors/selector.rs impl="impl Selector" fn=is_local_empty
+//@  header: fn is_local_empty(&self) -> bool
+//@end
+        }
+    }
+
+    pub mod compound_level {
+        use super::{Opt, below};
+        #[derive(Clone, PartialEq, Debug)]
+        pub struct Pseudo {
+            pub code: u8,
+            pub element: bool,
+        }
+        impl Pseudo {
+            pub fn no_placeholder(&self) -> Opt<Pseudo> {
+                let element = self.element;
+                below(self.code, |code| Pseudo { code, element })
+            }
+            pub fn is_element(&self) -> bool {
+                self.element
+            }
+        }
+        #[derive(Clone, PartialEq, Debug)]
+        pub struct CompoundSelector {
+            pub placeholders: Vec<u8>,
+            pub pseudo: Vec<Pseudo>,
+            /// everything else (element, id, classes, attributes)
+            pub other: u8,
+        }
+        impl CompoundSelector {
+//@range file=rsass/src/css/selectors/compound.rs impl="impl CompoundSelector" fn=no_placeholder
+//@  header: pub fn no_placeholder(&self) -> Opt<Self>
+//@end
+        }
+    }
+
+    pub mod pseudo_level {
+        use super::Opt;
+        /// the selector argument (one level down): what its no_placeholder
+        /// and no_leading_combinator report is chosen by the harness
+        #[derive(Clone, PartialEq, Debug)]
+        pub struct SelectorSet {
+            pub s: Vec<u8>,
+            pub np: u8,
+            pub nlc: u8,
+            pub stage: u8,
+        }
+        impl SelectorSet {
+            fn step(&self, code: u8, stage: u8) -> Opt<SelectorSet> {
+                match code {
+                    0 => Opt::None,
+                    1 => Opt::Any,
+                    _ => Opt::Some(SelectorSet { s: self.s.clone(), np: self.np, nlc: self.nlc, stage: self.stage | stage }),
+                }
+            }
+            pub fn no_placeholder(&self) -> Opt<SelectorSet> {
+                self.step(self.np, 1)
+            }
+            pub fn no_leading_combinator(&self) -> Opt<SelectorSet> {
+                self.step(self.nlc, 2)
+            }
+        }
+        #[derive(Clone, PartialEq, Debug)]
+        pub enum Arg {
+            Selector(SelectorSet),
+            Other(u8),
+        }
+        #[derive(Clone, PartialEq, Debug)]
+        pub struct Pseudo {
+            pub name: String,
+            pub arg: Arg,
+            pub element: bool,
+        }
+//@item file=rsass/src/css/selectors/pseudo.rs kind=fn name=name_in nth=2
+//@end
+        impl Pseudo {
+//@range file=rsass/src/css/selectors/pseudo.rs impl="impl Pseudo" fn=no_placeholder
+//@  header: pub fn no_placeholder(&self) -> Opt<Self>
+//@end
+//@range file=rsass/src/css/selectors/pseudo.rs impl="impl Pseudo" fn=name_in
+//@  header: fn name_in(&self, names: &[&str]) -> bool
+//@end
+        }
+    }
+}
+
+fn code3() -> u8 {
+    let c: u8 = kani::any();
+    kani::assume(c <= 4);
+    c
+}
+/// C22 (selector list level): a complex selector that contains a
+/// placeholder is removed from the list; the remaining selectors keep their
+/// (transformed) text and their ORDER; a list of which nothing remains is
+/// "no selector" (the rule is not emitted).
+#[kani::proof]
+#[kani::unwind(6)]
+fn c22_level_selector_list_drops_placeholders_keeps_order() {
+    use levels::set_level::{Selector as S, SelectorSet};
+    use levels::Opt;
+    let (a, b, c) = (code3(), code3(), code3());
+    kani::assume(a != 1 && b != 1 && c != 1);
+    let set = SelectorSet { s: vec![S(a), S(b), S(c)] };
+    let mut want: Vec<S> = Vec::new();
+    for x in [a, b, c] {
+        if x != 0 {
+            want.push(S(x + 100));
+        }
+    }
+    match set.no_placeholder() {
+        Opt::Some(r) => assert!(!want.is_empty() && r.s == want, "the selectors without placeholder remain, transformed, in their order"),
+        Opt::None => assert!(want.is_empty(), "no selector only if every selector contained a placeholder"),
+        Opt::Any => assert!(false, "a list without match-anything members is not match-anything"),
+    }
+}
+/// C22 (complex selector level): a placeholder in the compound or in the
+/// part the selector is relative to removes the selector; a compound that
+/// only had `:not(%p)` becomes the empty (match-anything) compound and the
+/// relation is KEPT; otherwise both parts are the transformed ones.
+#[kani::proof]
+#[kani::unwind(6)]
+fn c22_level_complex_selector() {
+    use levels::selector_level::{CompoundSelector as C, Rel, RelKind, Selector};
+    use levels::Opt;
+    let comp = code3();
+    let rel: Option<u8> = if kani::any() { Some(code3()) } else { None };
+    // a non-empty compound (the deprecated "empty compound with a relation" input is not part of the property)
+    let s = Selector { rel_of: rel.map(|r| Box::new((RelKind(7), Rel(r)))), compound: C { code: comp, empty: false } };
+    let r = s.no_placeholder();
+    if comp == 0 || rel == Some(0) {
+        assert!(matches!(r, Opt::None), "a placeholder in the compound or in the relative part removes the selector");
+    } else {
+        match r {
+            Opt::Some(t) => {
+                if comp == 1 {
+                    assert!(t.compound == C::default(), "only :not(%p): the compound matches anything");
+                } else {
+                    assert!(t.compound == C { code: comp + 100, empty: false }, "the transformed compound is used");
+                }
+                match rel {
+                    None | Some(1) => assert!(t.rel_of.is_none(), "no relation, or relative to match-anything: no relation"),
+                    Some(c) => assert!(t.rel_of == Some(Box::new((RelKind(7), Rel(c + 100)))), "the relation is kept, with the transformed relative part"),
+                }
+            }
+            _ => assert!(false, "a selector without placeholder is kept"),
+        }
+    }
+}
+/// C22 (compound level): a compound with a placeholder is removed; so is one
+/// of whose pseudo selectors any is removed (also a pseudo-ELEMENT with a
+/// selector argument); match-anything pseudos disappear; the rest is kept,
+/// transformed, in order, and the other parts are unchanged.
+#[kani::proof]
+#[kani::unwind(6)]
+fn c22_level_compound_selector() {
+    use levels::compound_level::{CompoundSelector as C, Pseudo as P};
+    use levels::Opt;
+    let (a, b) = (code3(), code3());
+    let (ea, eb): (bool, bool) = (kani::any(), kani::any());
+    let has_placeholder: bool = kani::any();
+    let c = C { placeholders: if has_placeholder { vec![9] } else { vec![] }, pseudo: vec![P { code: a, element: ea }, P { code: b, element: eb }], other: 42 };
+    let r = c.no_placeholder();
+    if has_placeholder || a == 0 || b == 0 {
+        assert!(matches!(r, Opt::None), "a placeholder, or a removed pseudo selector (class or element), removes the compound");
+    } else {
+        let mut want: Vec<P> = Vec::new();
+        if a != 1 {
+            want.push(P { code: a + 100, element: ea });
+        }
+        if b != 1 {
+            want.push(P { code: b + 100, element: eb });
+        }
+        match r {
+            Opt::Some(t) => {
+                assert!(t.pseudo == want, "the remaining pseudo selectors, transformed, in order");
+                assert!(t.other == 42 && t.placeholders.is_empty(), "the other parts are unchanged");
+            }
+            _ => assert!(false, "a compound without placeholder is kept"),
+        }
+    }
+}
+/// C22 (pseudo level): for EVERY pseudo selector with a selector argument —
+/// not only the well-known names — a placeholder inside the argument counts:
+/// `:not(%p)` matches anything, any other `:x(%p)` matches nothing; an
+/// argument that is kept is the TRANSFORMED one; `:is()` additionally drops
+/// leading combinators.
+fn pseudo_case(name: &str) {
+    use levels::pseudo_level::{Arg, Pseudo, SelectorSet};
+    use levels::Opt;
+    let (np, nlc) = (code3(), code3());
+    let element: bool = kani::any();
+    let arg = SelectorSet { s: vec![1, 2], np, nlc, stage: 0 };
+    let p = Pseudo { name: String::from(name), arg: Arg::Selector(arg.clone()), element };
+    let is_not = name == "not";
+    let is_is = name == "is";
+    let r = p.no_placeholder();
+    let want_stage = if is_is { 3 } else { 1 };
+    let expect_some = np >= 2 && (!is_is || nlc >= 2);
+    match r {
+        Opt::Some(t) => {
+            assert!(expect_some, "kept only if the argument is kept");
+            assert!(t.name == name && t.element == element, "name and kind unchanged");
+            assert!(t.arg == Arg::Selector(SelectorSet { stage: want_stage, ..arg }), "the argument is the transformed one");
+        }
+        Opt::Any => assert!((np == 0 && is_not) || (np == 1 && !is_not) || (np >= 2 && is_is && nlc == 1), ":not(%p) (or an argument matching anything) matches anything"),
+        Opt::None => assert!((np == 0 && !is_not) || (np == 1 && is_not) || (np >= 2 && is_is && nlc == 0), "a placeholder in the argument of any other pseudo selector removes it"),
+    }
+}
+#[kani::proof]
+#[kani::unwind(12)]
+fn c22_level_pseudo_not() {
+    pseudo_case("not");
+}
+#[kani::proof]
+#[kani::unwind(12)]
+fn c22_level_pseudo_is() {
+    pseudo_case("is");
+}
+#[kani::proof]
+#[kani::unwind(12)]
+fn c22_level_pseudo_where() {
+    pseudo_case("where");
+}
+#[kani::proof]
+#[kani::unwind(12)]
+fn c22_level_pseudo_slotted() {
+    pseudo_case("slotted");
+}
+/// C22 (pseudo level): a pseudo selector without selector argument is kept
+/// as it is.
+#[kani::proof]
+#[kani::unwind(12)]
+fn c22_level_pseudo_plain() {
+    use levels::pseudo_level::{Arg, Pseudo};
+    use levels::Opt;
+    let p = Pseudo { name: String::from("hover"), arg: Arg::Other(3), element: kani::any() };
+    match p.no_placeholder() {
+        Opt::Some(t) => assert!(t == p, "unchanged"),
+        _ => assert!(false, "a plain pseudo selector is kept"),
+    }
+}
